@@ -1,7 +1,7 @@
 """Obligations for C06."""
 from oblib import ob
 
-BOUNDS = {"quick": "", "thorough": ""}
+BOUNDS = {'quick': 'Inside: all sequences of k calls (k=2,3) over {Null, False, True, BeginObject, EndObject, BeginArray, EndArray, String(s) with 1-2 symbolic bytes, Uint(7), WriteValue(v) with 1-3 symbolic bytes over {}[]:,"a1 space}, starting from the empty encoder and from 6 concrete mid-states (name expected, value expected nested, inside array, nested with sibling names, after array element, after an object whose names exceeded 1 KiB), for AllowDuplicateNames x AllowInvalidUTF8, to an accept-all writer, against zzspec.EncModel after every call (accept iff model; delivered+buffered bytes = model serialisation; everything delivered at depth 0; OutputOffset; StackDepth). Outside: k>3 (thorough: 4), whitespace options (C12), longer strings.', 'thorough': 'As quick with k up to 4 from the empty state, k=3 from the mid-states, strings up to 2 and raw values up to 4 symbolic bytes.'}
 ASSUMPTIONS = []
 
 
